@@ -162,3 +162,14 @@ func specGenuineER6(s *icmpDriver, p *packets.FrameParser, t uint8) bool {
 //@ ensures[C06.wire.flow] ret0 == nil && !s.isIPV6 && s.localAddr.Is4() && s.params.Target.Is4() ==> sameip(ghostaddr(ser.src), s.localAddr.Unmap()) && sameip(ghostaddr(ser.dst), s.params.Target.Unmap())
 //@ ensures[C10.send.wrap] ret0 != nil ==> noRepoErr(ret0)
 //@ modifies s.mu, map(s.sentProbes), ghost clock, ghost wrN, ghost wrClock
+
+//@ func (*icmpDriver).ReceiveProbe
+//@ safety C09
+//@ requires[pre.nonnil]     s != nil && s.source != nil && s.parser != nil && s.parser.parserv4 != nil && s.parser.parserv6 != nil
+//@ requires[pre.past]       forall(k, 0, 256, s.sentProbes[k] <= now())
+//@ ensures[C09.recv.xor]    (ret0 == nil) != (ret1 == nil)
+//@ ensures[C09.recv.class]  ret1 != nil && !chain(ret1, *common.ReceiveProbeNoPktError) && !chain(ret1, *common.BadPacketError) ==> ioFail
+//@ ensures[C09.recv.io]     ioFail == old(ioFail) || ret1 != nil
+//@ ensures[C01.recv.fresh]  ret0 != nil ==> fresh(ret0)
+//@ ensures[C09.recv.state]  forall(k, 0, 256, s.sentProbes[k] == old(s.sentProbes[k]) && has(s.sentProbes, k) == old(has(s.sentProbes, k)))
+//@ modifies s.mu, packets.FrameParser.IP4, packets.FrameParser.IP6, packets.FrameParser.TCP, packets.FrameParser.ICMP4, packets.FrameParser.ICMP6, packets.FrameParser.Payload, packets.FrameParser.Layers, gopacket.DecodingLayerParser, elems(s.buffer), ghost clock, ghost ioFail
